@@ -179,3 +179,49 @@ def any_profile(reopen_ok=False, weights=None, with_manydirs=False):
         s = table[name].map(lambda p, name=name: dict(p, profile=name))
         alts += [s] * n
     return st.one_of(*alts)
+
+
+def with_reopens(base, min_r=1, max_r=3):
+    """Insert 1-3 reopen ops at drawn positions (so every program has >= 1 generation)."""
+    def ins(p, positions):
+        ops = list(p['ops'])
+        for k, pos in enumerate(sorted(positions)):
+            i = min(len(ops), (pos * (len(ops) + 1)) // 1000 + k)
+            ops.insert(i, {'k': 'reopen'})
+        out = []
+        for i, o in enumerate(ops):
+            o = dict(o)
+            o['n'] = i + 1
+            out.append(o)
+        return dict(p, ops=out)
+    return st.builds(ins, base, st.lists(st.integers(150, 850), min_size=min_r, max_size=max_r))
+
+
+def hybrid(cfg=None, reopen_ok=False):
+    """isohybrid images by construction: a 2048-byte boot file carrying the isolinux signature is the
+    initial El Torito entry (load size 4), optional further 0xef entries of different sizes, then
+    add_isohybrid with drawn geometry/partition parameters, then edits that move the boot files."""
+    c = cfg or cfg_st()
+    bootfile = add_fp(length=st.sampled_from([2048, 2048, 1024, 68, 4096]), ck=st.just(1), ns=st.sampled_from([7, 1, 3]), d=st.just(0), file=st.just(False))
+    first = add_boot.map(lambda o: dict(o, b=0, j=0, media=0, plat=0, load=4, efi=False))
+    efifile = add_fp(length=st.sampled_from([5000, 2048, 70000, 1]), ck=st.just(0), ns=st.sampled_from([7, 1]), d=st.just(0), file=st.just(False))
+    efiboot = add_boot.map(lambda o: dict(o, b=1, j=0, media=0, efi=True, load=None))
+    efi_part = st.lists(st.tuples(efifile, efiboot).map(list), min_size=0, max_size=2).map(lambda l: [x for pair in l for x in pair])
+    pre = st.lists(st.one_of(add_fp(length=SMALL_LEN), add_dir()), min_size=0, max_size=3)
+    body_choices = [add_fp(length=SMALL_LEN), add_fp(length=st.sampled_from([600000, 70000])), rm_file, add_dir(), query, write, force, add_hybrid, rm_hybrid, add_link, hide]
+    if reopen_ok:
+        body_choices.append(reopen)
+    body = st.lists(st.one_of(*body_choices), min_size=0, max_size=8)
+    return program(c, st.builds(lambda bf, f, e, p, h, b: [bf, f] + e + p + [h] + b, bootfile, first, efi_part, pre, add_hybrid, body))
+
+
+_old_any_profile = any_profile
+
+
+def any_profile(reopen_ok=False, weights=None, with_manydirs=False):
+    w = dict(weights or {'mixed': 5, 'growshrink': 2, 'deep': 2, 'links': 3, 'boot': 2})
+    nh = w.pop('hybrid', 1)
+    base = _old_any_profile(reopen_ok, w, with_manydirs)
+    total = sum(w.values())
+    hyb = hybrid(reopen_ok=reopen_ok).map(lambda p: dict(p, profile='hybrid'))
+    return st.one_of(*([base] * max(1, total // max(nh, 1) // 2) + [hyb])) if nh else base
